@@ -1,7 +1,7 @@
 (* RDATA built by the zone-file parser passes the model of Rdata::validate; records,
    directives, lines and the iterator are total and preserve the context invariant. *)
 From QV Require Import Base.ListX Model.NameWire Spec.NameWireS Spec.NameRepr Proofs.NameWireP
-  Model.ZfReader Model.ZfParser Proofs.ZfStdP Proofs.ZfReaderP Proofs.ZfNameP Proofs.ZfParserP.
+  Model.ZfReader Model.ZfParser Spec.ZfValidS Proofs.ZfStdP Proofs.ZfReaderP Proofs.ZfNameP Proofs.ZfParserP.
 
 Local Open Scope nat_scope.
 
@@ -124,18 +124,18 @@ Proof.
   - exists b''. split; [exact Hb''|lia].
 Qed.
 
-Lemma list_max_ge : forall l h p, list_max l = Some h -> In p l -> (p <= h)%N.
+Lemma list_max_ge : forall l h p, ZfParser.list_max l = Some h -> In p l -> (p <= h)%N.
 Proof.
-  induction l as [|x t IH]; intros h p Hm Hin; [contradiction|]. cbn [list_max] in Hm.
-  destruct (list_max t) as [m|] eqn:E.
+  induction l as [|x t IH]; intros h p Hm Hin; [contradiction|]. cbn [ZfParser.list_max] in Hm.
+  destruct (ZfParser.list_max t) as [m|] eqn:E.
   - inversion Hm; subst. destruct Hin as [->|Hin]; [lia|]. specialize (IH m p eq_refl Hin). lia.
-  - inversion Hm; subst. destruct Hin as [->|Hin]; [lia|]. destruct t; [contradiction|]. simpl in E. destruct (list_max t); discriminate.
+  - inversion Hm; subst. destruct Hin as [->|Hin]; [lia|]. destruct t; [contradiction|]. simpl in E. destruct (ZfParser.list_max t); discriminate.
 Qed.
 
-Lemma list_max_in : forall l h, list_max l = Some h -> In h l.
+Lemma list_max_in : forall l h, ZfParser.list_max l = Some h -> In h l.
 Proof.
-  induction l as [|x t IH]; intros h Hm; [discriminate|]. cbn [list_max] in Hm.
-  destruct (list_max t) as [m|] eqn:E.
+  induction l as [|x t IH]; intros h Hm; [discriminate|]. cbn [ZfParser.list_max] in Hm.
+  destruct (ZfParser.list_max t) as [m|] eqn:E.
   - inversion Hm; subst. destruct (N.max_spec x m) as [[_ ->]|[_ ->]]; [right; apply IH; reflexivity|left; reflexivity].
   - inversion Hm; subst. left; reflexivity.
 Qed.
@@ -150,14 +150,14 @@ Lemma safe_new_in_wks addr proto ports : length addr = 4 -> Forall (fun p => (p 
   safe false (new_in_wks addr proto ports) (fun d => validate_as_in_wks d = Ok true).
 Proof.
   intros Ha Hp. unfold new_in_wks.
-  set (len := match list_max ports with Some h => N.to_nat (h / 8) + 1 | None => 0 end).
+  set (len := match ZfParser.list_max ports with Some h => N.to_nat (h / 8) + 1 | None => 0 end).
   assert (Hlen : (N.of_nat len <= 8192)%N).
-  { unfold len. destruct (list_max ports) as [h|] eqn:E; [|lia].
+  { unfold len. destruct (ZfParser.list_max ports) as [h|] eqn:E; [|lia].
     apply list_max_in in E. rewrite Forall_forall in Hp. pose proof (div8_bound h (Hp h E)). lia. }
   destruct (wks_set_ok ports (repeat 0%N len)) as (bm & Hb & Hl).
-  - intros p Hin. rewrite repeat_length. unfold len. destruct (list_max ports) as [h|] eqn:E.
+  - intros p Hin. rewrite repeat_length. unfold len. destruct (ZfParser.list_max ports) as [h|] eqn:E.
     + pose proof (div8_mono p h (list_max_ge _ _ _ E Hin)). lia.
-    + destruct ports; [contradiction|]. simpl in E. destruct (list_max ports); discriminate.
+    + destruct ports; [contradiction|]. simpl in E. destruct (ZfParser.list_max ports); discriminate.
   - rewrite Hb. rewrite repeat_length in Hl.
     eapply safe_weaken; [apply safe_mk_rdata|].
     + rewrite !app_length. simpl length. lia.
@@ -274,6 +274,13 @@ Lemma safeN_bind {A B} n (m : M A) (f : A -> M B) (Q1 : A -> Prop) (Q2 : B -> Pr
 Proof.
   intros Hm Hf r Hr Hn. apply (okres_bind false false m f Q1 Q2 r Hr (Hm r Hr Hn)).
   intros a r' Ha Hr' _ _. apply Hf; assumption.
+Qed.
+
+Lemma safeN_bind_r {A B} n (m : M A) (f : A -> M B) (Q1 : A -> Prop) (Q2 : B -> Prop) :
+  safe false m Q1 -> (forall a, Q1 a -> safeN n (f a) Q2) -> safeN n (bindM m f) Q2.
+Proof.
+  intros Hm Hf r Hr Hn. apply (okres_bind false false m f Q1 Q2 r Hr (Hm r Hr)).
+  intros a r' Ha Hr' _ Hle. apply Hf; [assumption|assumption|lia].
 Qed.
 
 Lemma safe_parse_in_wks : safe false parse_in_wks_rdata (fun d => validate_as_in_wks d = Ok true).
@@ -416,4 +423,417 @@ Proof.
         * intros Hnil. apply Hne. rewrite <- (rev_involutive cs), Hnil. reflexivity. }
   match goal with |- okres _ _ _ ?x => destruct x as [[d r2]|[p k|]|] end; simpl in *; auto.
   destruct G as (G1 & G2 & G3). split; [congruence|]. split; [lia|exact G3].
+Qed.
+
+(* ---- parse_rdata: what is built passes Rdata::validate ----------------------------------------------- *)
+
+Lemma dispatch_agree : name_rdata_types = validate_name_types.
+Proof. reflexivity. Qed.
+
+Definition type_allowed (t : N) : Prop := t <> TYPE_NULL /\ t <> TYPE_OPT /\ t <> TYPE_TSIG.
+
+Lemma safe_parse_rdata c class t : ctx_ok c -> type_allowed t ->
+  safe false (parse_rdata c class t) (fun d => rdata_validate class t d = Ok true).
+Proof.
+  intros Hc (Hn & Ho & Ht). unfold parse_rdata, rdata_validate. rewrite <- dispatch_agree.
+  destruct (in_types t name_rdata_types); [apply safe_parse_name_rdata; exact Hc|].
+  destruct ((t =? TYPE_A)%N && (class =? CLASS_IN)%N); [apply safe_parse_in_a|].
+  destruct ((t =? TYPE_A)%N && (class =? CLASS_CH)%N); [apply safe_parse_ch_a; exact Hc|].
+  destruct (t =? TYPE_SOA)%N; [apply safe_parse_soa; exact Hc|].
+  destruct ((t =? TYPE_WKS)%N && (class =? CLASS_IN)%N); [apply safe_parse_in_wks|].
+  destruct (t =? TYPE_HINFO)%N; [apply safe_parse_hinfo|].
+  destruct (t =? TYPE_MINFO)%N; [apply safe_parse_minfo; exact Hc|].
+  destruct (t =? TYPE_MX)%N; [apply safe_parse_mx; exact Hc|].
+  destruct (t =? TYPE_TXT)%N; [apply safe_parse_txt|].
+  destruct ((t =? TYPE_AAAA)%N && (class =? CLASS_IN)%N); [apply safe_parse_in_aaaa|].
+  destruct ((t =? TYPE_SRV)%N && (class =? CLASS_IN)%N); [apply safe_parse_in_srv; exact Hc|].
+  assert (E : ((t =? TYPE_OPT)%N || (t =? TYPE_TSIG)%N) = false).
+  { apply orb_false_iff. split; apply N.eqb_neq; assumption. }
+  rewrite E. snext safe_cbh. destruct a; cbn [negb]; [|apply safe_failHere].
+  eapply safe_weaken; [apply safe_parse_unknown_rdata|]. intros; reflexivity.
+Qed.
+
+Lemma safe_parse_type : safe true parse_type type_allowed.
+Proof.
+  unfold parse_type. eapply safe_bind_ft; [apply safe_getpos|]. intros position _.
+  eapply safe_bind_tf.
+  - apply (safe_read_field_strict type_from_str InvalidType). intros v. rewrite type_from_str_nil. discriminate.
+  - intros t _. destruct (t =? TYPE_NULL)%N eqn:E1; [apply safe_failM|].
+    destruct (t =? TYPE_OPT)%N eqn:E2; [apply safe_failM|].
+    destruct (t =? TYPE_TSIG)%N eqn:E3; [apply safe_failM|].
+    apply safe_ret. repeat split; apply N.eqb_neq; assumption.
+Qed.
+
+Lemma safe_parse_ttl : safe false parse_ttl (fun _ => True).
+Proof. unfold parse_ttl. snext safe_parse_uint. apply safe_ret. exact I. Qed.
+
+Lemma safe_parse_class : safe false parse_class (fun _ => True).
+Proof. eapply safe_weaken; [apply safe_read_field|auto]. Qed.
+
+Lemma safe_parse_ttl_and_class c : safe false (parse_ttl_and_class c) (fun _ => True).
+Proof.
+  unfold parse_ttl_and_class.
+  eapply safe_bind; [apply safe_try_ok; apply safe_parse_ttl|]. intros [ttl|] _.
+  - sskip. eapply safe_bind; [apply safe_try_ok; apply safe_parse_class|]. intros [class|] _.
+    + apply safe_ret; exact I.
+    + destruct (c_prev_class c); [apply safe_ret; exact I|apply safe_failHere].
+  - eapply safe_bind; [apply safe_try_ok; apply safe_parse_class|]. intros [class|] _.
+    + sskip. eapply safe_bind; [apply safe_try_ok; apply safe_parse_ttl|]. intros [ttl|] _.
+      * apply safe_ret; exact I.
+      * destruct (default_or_previous_ttl c); [apply safe_ret; exact I|apply safe_failHere].
+    + destruct (default_or_previous_ttl c); [|apply safe_failHere].
+      destruct (c_prev_class c); [apply safe_ret; exact I|apply safe_failHere].
+Qed.
+
+(* ---- lines ------------------------------------------------------------------------------------------- *)
+
+Definition line_ok (l : line) : Prop :=
+  match l_content l with
+  | CRecord rr => good_name (rr_owner rr) /\ type_allowed (rr_type rr) /\
+                  rdata_validate (rr_class rr) (rr_type rr) (rr_rdata rr) = Ok true
+  | CInclude _ o => origin_ok o
+  end.
+
+Definition line_res (x : option line * ctx) : Prop :=
+  ctx_ok (snd x) /\ forall l, fst x = Some l -> line_ok l.
+
+Lemma safe_record_fields c sol lw : ctx_ok c -> safe true (parse_record_fields c sol lw) line_res.
+Proof.
+  intros Hc. pose proof Hc as [Ho Hp]. unfold parse_record_fields.
+  eapply safe_bind_ft with (Q1 := good_name).
+  { destruct lw; [|apply safe_parse_name; exact Ho].
+    destruct (c_prev_owner c) as [o|] eqn:E; [apply safe_ret; apply Hp; reflexivity|apply safe_failM]. }
+  intros owner Hown. eapply safe_bind_ft; [apply safe_skip_to_next_field|]. intros _ _.
+  eapply safe_bind_ft; [apply safe_parse_ttl_and_class|]. intros tc _.
+  eapply safe_bind_ft; [apply safe_skip_to_next_field|]. intros _ _.
+  eapply safe_bind_tf; [apply safe_parse_type|]. intros t Ht.
+  eapply safe_bind; [apply safe_parse_rdata; assumption|]. intros d Hd.
+  apply safe_ret. split.
+  - split; cbn; [exact Ho|]. intros n [= <-]. exact Hown.
+  - cbn. intros l [= <-]. unfold line_ok. cbn. auto.
+Qed.
+
+Lemma okres_trans {A} (Q : A -> Prop) r r1 x :
+  r_fuel r1 = r_fuel r -> length (r_rest r1) <= length (r_rest r) -> okres true Q r1 x -> okres true Q r x.
+Proof.
+  intros F L. destruct x as [[a r2]|[p k|]|]; simpl; auto. intros (G1 & G2 & G3).
+  split; [congruence|]. split; [lia|exact G3].
+Qed.
+
+Lemma record_or_empty_ok c r : wfr r -> r_rest r <> [] -> ctx_ok c ->
+  okres true line_res r (parse_record_or_empty c r).
+Proof.
+  intros Hr Hne Hc. unfold parse_record_or_empty. unfold bindM at 1, getpos. unfold bindM at 1, lift.
+  pose proof (skip_whitespace_le r) as [Wf Wl]. pose proof (skip_whitespace_cases r) as Wc.
+  destruct (skip_whitespace r) as [lw r1]. cbn [fst snd] in *.
+  assert (W1 : wfr r1) by (unfold wfr in *; lia).
+  pose proof (foe_spec (r_fuel r1) true r1) as H2.
+  assert (Lr1 : length (r_rest r1) < r_fuel r1) by (unfold wfr in W1; lia). specialize (H2 Lr1).
+  unfold bindM, skip_to_next_field_or_through_eol, foe_fuel.
+  destruct (foe_loop (r_fuel r1) true r1) as [[f r2]|[p k|]|]; auto.
+  destruct H2 as (F2 & L2 & H2). destruct f.
+  - apply (okres_trans line_res r r2); [congruence|lia|].
+    apply safe_record_fields; [exact Hc|unfold wfr in *; lia].
+  - simpl. split; [congruence|]. split.
+    + destruct Wc as [[_ W]|[_ W]]; [lia|]. rewrite W in H2. specialize (H2 eq_refl Hne). exact H2.
+    + split; [exact Hc|]. cbn. discriminate.
+Qed.
+
+(* ---- directives ------------------------------------------------------------------------------------------ *)
+
+Lemma push_path_ok o p n start : safe false (push_path_octet o p n start) (fun _ => True).
+Proof. unfold push_path_octet. destruct (n <? INCLUDE_PATH_MAX)%N; [apply safe_ret; exact I|apply safe_failM]. Qed.
+
+Lemma pqip_loop_safe : forall fuel start p n, safeN fuel (pqip_loop fuel start p n) (fun _ => True).
+Proof.
+  induction fuel as [|fuel IH]; intros start p n r Hr Hn; [lia|].
+  cbn [pqip_loop]. unfold bindM at 1, getpos.
+  apply (read_octet_step _ _ fuel r Hr Hn).
+  - intros r' Hr'. exact I.
+  - intros octet. destruct (octet =? 92)%N.
+    + apply after_escape. intros e. eapply safeN_bind_r; [apply push_path_ok|]. intros pn _. apply IH.
+    + destruct (octet =? 34)%N; [apply safeN_of_safe, safe_ret; exact I|].
+      eapply safeN_bind_r; [apply push_path_ok|]. intros pn _. apply IH.
+Qed.
+
+Lemma puip_loop_safe : forall fuel start p n, safeN fuel (puip_loop fuel start p n) (fun _ => True).
+Proof.
+  induction fuel as [|fuel IH]; intros start p n r Hr Hn; [lia|].
+  cbn [puip_loop]. apply (read_field_octet_step _ _ fuel r Hr Hn).
+  - intros r' Hr' _ _. simpl. auto.
+  - intros octet r' Hr' Hf Hlt _.
+    assert (G : safeN fuel (do eff <- (if (octet =? 92)%N then parse_escape else ret octet);
+                             do pn <- push_path_octet eff p n start; puip_loop fuel start (fst pn) (snd pn)) (fun _ => True)).
+    { eapply safeN_bind_r with (Q1 := fun _ => True).
+      - destruct (octet =? 92)%N; [apply safe_parse_escape|apply safe_ret; exact I].
+      - intros eff _. eapply safeN_bind_r; [apply push_path_ok|]. intros pn _. apply IH. }
+    apply G; assumption.
+Qed.
+
+Lemma safe_parse_include_path : safe false parse_include_path (fun _ => True).
+Proof.
+  intros r Hr. unfold parse_include_path.
+  destruct (match peek_octet r with Some c => (c =? 34)%N | None => false end).
+  - revert r Hr. change (safe false (do start <- getpos; do _ <- lift read_octet; do fuel <- get_fuel; pqip_loop fuel start [] 0%N) (fun _ => True)).
+    snext safe_getpos. eapply safe_bind; [apply (safe_lift read_octet read_octet_le)|]. intros _ _.
+    apply safe_with_fuel. intros n. apply pqip_loop_safe.
+  - revert r Hr. change (safe false (do start <- getpos; do fuel <- get_fuel; puip_loop fuel start [] 0%N) (fun _ => True)).
+    snext safe_getpos. apply safe_with_fuel. intros n. apply puip_loop_safe.
+Qed.
+
+Definition ctx_res (c : ctx) : Prop := ctx_ok c.
+
+Lemma safe_origin_directive c : ctx_ok c -> safe false (parse_origin_directive c) ctx_ok.
+Proof.
+  intros [Ho Hp]. unfold parse_origin_directive. sskip.
+  eapply safe_bind; [apply safe_parse_name; exact Ho|]. intros n Hn. sskip.
+  apply safe_ret. split; cbn; [intros m [= <-]; exact Hn|exact Hp].
+Qed.
+
+Lemma safe_ttl_directive c : ctx_ok c -> safe false (parse_ttl_directive c) ctx_ok.
+Proof.
+  intros [Ho Hp]. unfold parse_ttl_directive. sskip. snext safe_parse_uint. sskip.
+  apply safe_ret. split; cbn; assumption.
+Qed.
+
+Lemma safe_include_directive c : ctx_ok c -> safe false (parse_include_directive c) line_ok.
+Proof.
+  intros [Ho Hp]. unfold parse_include_directive. snext safe_getpos. sskip.
+  snext safe_parse_include_path. snext safe_through.
+  eapply safe_bind with (Q1 := origin_ok).
+  - destruct a1; [|apply safe_ret; exact Ho].
+    eapply safe_bind; [apply safe_parse_name; exact Ho|]. intros o Hgo. sskip.
+    apply safe_ret. intros m [= <-]. exact Hgo.
+  - intros org Horg. apply safe_ret. unfold line_ok. cbn. exact Horg.
+Qed.
+
+(* a matched directive keyword consumes it *)
+Lemma expect_then {B} field cmp (f : bool -> M B) (Q : B -> Prop) r :
+  wfr r -> 1 <= length field ->
+  safe false (f true) Q ->
+  (okres true Q r (f false r)) ->
+  okres true Q r (bindM (expect_field_impl field cmp) f r).
+Proof.
+  intros Hr Hlen Ht Hfalse. unfold bindM.
+  destruct (expect_field_impl_spec field cmp r) as [H|[H Hl]]; rewrite H; [exact Hfalse|].
+  assert (W : wfr (adv r (length field))) by (unfold wfr in *; rewrite adv_fuel, adv_len; lia).
+  specialize (Ht _ W). pose proof (adv_len r (length field)) as AL. pose proof (adv_fuel r (length field)) as AF.
+  destruct (f true (adv r (length field))) as [[b r2]|[p k|]|]; unfold okres in *; auto.
+  destruct Ht as (G1 & G2 & G3). split; [congruence|]. split; [lia|exact G3].
+Qed.
+
+Lemma directive_ok c r : wfr r -> ctx_ok c -> okres true line_res r (parse_directive c r).
+Proof.
+  intros Hr Hc. unfold parse_directive, expect_field_ci.
+  apply expect_then; [exact Hr|simpl; lia| |].
+  { eapply safe_bind; [apply safe_origin_directive; exact Hc|]. intros c' Hc'. apply safe_ret.
+    split; [exact Hc'|cbn; discriminate]. }
+  apply expect_then; [exact Hr|simpl; lia| |].
+  { eapply safe_bind; [apply safe_ttl_directive; exact Hc|]. intros c' Hc'. apply safe_ret.
+    split; [exact Hc'|cbn; discriminate]. }
+  apply expect_then; [exact Hr|simpl; lia| |exact I].
+  eapply safe_bind; [apply safe_include_directive; exact Hc|]. intros l Hl. apply safe_ret.
+  split; [exact Hc|cbn; intros l' [= <-]; exact Hl].
+Qed.
+
+Lemma parse_line_ok c r : wfr r -> r_rest r <> [] -> ctx_ok c -> okres true line_res r (parse_line c r).
+Proof.
+  intros Hr Hne Hc. unfold parse_line. destruct (peek_octet r) as [d|].
+  - destruct (d =? 36)%N; [apply directive_ok|apply record_or_empty_ok]; assumption.
+  - apply record_or_empty_ok; assumption.
+Qed.
+
+(* ---- the iterator ------------------------------------------------------------------------------------------ *)
+
+Lemma lines_loop_ok : forall fuel c r, wfr r -> ctx_ok c -> length (r_rest r) < fuel ->
+  match lines_loop fuel c r with
+  | Ok (ol, c', r') =>
+    r_fuel r' = r_fuel r /\ length (r_rest r') <= length (r_rest r) /\ ctx_ok c' /\
+    (forall l, ol = Some l -> line_ok l /\ length (r_rest r') < length (r_rest r))
+  | Err (ZErr _ _) => True
+  | Err ZOutOfFuel => False
+  | Panic => False
+  end.
+Proof.
+  induction fuel as [|fuel IH]; intros c r Hr Hc Hn; [lia|]. cbn [lines_loop].
+  unfold at_eof. destruct (r_rest r) as [|x t] eqn:E.
+  - rewrite E. split; [reflexivity|]. split; [lia|]. split; [exact Hc|]. discriminate.
+  - assert (Hne : r_rest r <> []) by (rewrite E; discriminate).
+    assert (EL : length (r_rest r) = length (x :: t)) by (rewrite E; reflexivity).
+    pose proof (parse_line_ok c r Hr Hne Hc) as H. rewrite <- E.
+    destruct (parse_line c r) as [[[ol c'] r']|[p k|]|]; simpl in H; auto.
+    destruct H as (F & L & Hc' & Hl). cbn [fst snd] in *. destruct ol as [l|].
+    + split; [exact F|]. split; [lia|]. split; [exact Hc'|]. intros l' [= <-]. split; [apply Hl; reflexivity|exact L].
+    + assert (W : wfr r') by (unfold wfr in *; lia).
+      specialize (IH c' r' W Hc'). assert (L' : length (r_rest r') < fuel) by lia. specialize (IH L').
+      destruct (lines_loop fuel c' r') as [[[ol c''] r'']|[p k|]|]; auto.
+      destruct IH as (F2 & L2 & Hc2 & Hl2). split; [congruence|]. split; [lia|]. split; [exact Hc2|].
+      intros l Hl'. destruct (Hl2 l Hl') as [A B]. split; [exact A|lia].
+Qed.
+
+Definition item := (line + (pos * zkind))%type.
+Definition item_ok (it : item) : Prop := match it with inl l => line_ok l | inr _ => True end.
+Definition is_line (it : item) : Prop := match it with inl _ => True | inr _ => False end.
+
+Definition pinv (p : parser) : Prop := wfr (ps_rd p) /\ ctx_ok (ps_ctx p).
+Definition measure (p : parser) : nat := if ps_error p then 0 else S (length (r_rest (ps_rd p))).
+
+Lemma next_after_error p : ps_error p = true -> parser_next p = Ok (None, p).
+Proof. intros H. unfold parser_next. rewrite H. reflexivity. Qed.
+
+Lemma next_spec p : pinv p -> ps_error p = false ->
+  exists o p', parser_next p = Ok (o, p') /\ pinv p' /\
+    match o with
+    | Some (inl l) => line_ok l /\ ps_error p' = false /\ measure p' < measure p
+    | Some (inr _) => ps_error p' = true
+    | None => ps_error p' = false
+    end.
+Proof.
+  intros [Hr Hc] He. unfold parser_next. rewrite He.
+  assert (L : length (r_rest (ps_rd p)) < r_fuel (ps_rd p)) by (unfold wfr in Hr; lia).
+  pose proof (lines_loop_ok _ (ps_ctx p) (ps_rd p) Hr Hc L) as H.
+  destruct (lines_loop (r_fuel (ps_rd p)) (ps_ctx p) (ps_rd p)) as [[[ol c'] r']|[ps k|]|]; try contradiction.
+  - destruct H as (F & Le & Hc' & Hl). destruct ol as [l|].
+    + eexists _, _. split; [reflexivity|]. split; [split; [unfold wfr in *; cbn; lia|exact Hc']|].
+      destruct (Hl l eq_refl) as [A B]. split; [exact A|]. split; [reflexivity|].
+      unfold measure. rewrite He. cbn. lia.
+    + eexists _, _. split; [reflexivity|]. split; [split; [unfold wfr in *; cbn; lia|exact Hc']|reflexivity].
+  - eexists _, _. split; [reflexivity|]. split; [split; assumption|reflexivity].
+Qed.
+
+Lemma lines_none_eof : forall fuel c r c' r', lines_loop fuel c r = Ok (None, c', r') -> r_rest r' = [].
+Proof.
+  induction fuel as [|fuel IH]; intros c r c' r' H; [discriminate|]. cbn [lines_loop] in H.
+  unfold at_eof in H. destruct (r_rest r) as [|x t] eqn:E.
+  - inversion H; subst. exact E.
+  - destruct (parse_line c r) as [[[ol c1] r1]|e|]; try discriminate.
+    destruct ol as [l|]; [discriminate|]. eapply IH. exact H.
+Qed.
+
+Lemma next_none_again p p' : pinv p -> ps_error p = false ->
+  parser_next p = Ok (None, p') -> parser_next p' = Ok (None, p').
+Proof.
+  intros [Hr Hc] He H. unfold parser_next in H. rewrite He in H.
+  assert (L : length (r_rest (ps_rd p)) < r_fuel (ps_rd p)) by (unfold wfr in Hr; lia).
+  pose proof (lines_loop_ok _ (ps_ctx p) (ps_rd p) Hr Hc L) as HL.
+  destruct (lines_loop (r_fuel (ps_rd p)) (ps_ctx p) (ps_rd p)) as [[[ol c'] r']|[ps k|]|] eqn:E; try discriminate.
+  - destruct ol as [l|]; [discriminate|]. inversion H; subst. destruct HL as (F & _).
+    apply lines_none_eof in E. unfold parser_next. cbn [ps_error ps_rd ps_ctx].
+    assert (exists f, r_fuel r' = S f) as [f Hf] by (unfold wfr in Hr; destruct (r_fuel r'); [lia|eauto]).
+    rewrite Hf. cbn [lines_loop]. unfold at_eof. rewrite E. reflexivity.
+Qed.
+
+Lemma collect_error : forall fuel p acc, ps_error p = true -> collect (S fuel) p acc = Ok (rev_fast acc, p).
+Proof. intros fuel p acc H. cbn [collect]. rewrite (next_after_error p H). reflexivity. Qed.
+
+Lemma collect_spec : forall fuel p acc, pinv p -> ps_error p = false -> measure p < fuel ->
+  Forall is_line acc -> Forall item_ok acc ->
+  exists items p', collect fuel p acc = Ok (items, p') /\ Forall item_ok items /\
+    parser_next p' = Ok (None, p') /\
+    (exists ls tl, items = ls ++ tl /\ Forall is_line ls /\ (tl = [] \/ exists e, tl = [inr e])).
+Proof.
+  induction fuel as [|fuel IH]; intros p acc Hp He Hm Hl Hok; [lia|].
+  cbn [collect]. destruct (next_spec p Hp He) as (o & p' & Hn & Hp' & Ho). rewrite Hn. cbn [bind].
+  destruct o as [[l|e]|].
+  - destruct Ho as (A & B & C). apply IH; [exact Hp'|exact B|lia|constructor; [exact I|exact Hl]|constructor; [exact A|exact Hok]].
+  - destruct fuel as [|fuel]; [unfold measure in Hm; rewrite He in Hm; lia|].
+    rewrite (collect_error fuel p' _ Ho). eexists _, _. split; [reflexivity|].
+    rewrite rev_fast_rev. cbn [rev]. split.
+    + apply Forall_app. split; [apply Forall_rev; exact Hok|constructor; [exact I|constructor]].
+    + split; [apply next_after_error; exact Ho|].
+      exists (rev acc), [inr e]. split; [reflexivity|]. split; [apply Forall_rev; exact Hl|right; eauto].
+  - eexists _, _. split; [reflexivity|]. rewrite rev_fast_rev. split; [apply Forall_rev; exact Hok|].
+    split.
+    + (* the iterator stays exhausted: the reader is at end of input or ... re-running gives None again *)
+      exact (next_none_again p p' Hp He Hn).
+    + exists (rev acc), []. rewrite app_nil_r. split; [reflexivity|]. split; [apply Forall_rev; exact Hl|left; reflexivity].
+Qed.
+
+(* ---- the theorems ------------------------------------------------------------------------------------------ *)
+
+Lemma pinv_new input : pinv (parser_new input).
+Proof.
+  split; [unfold wfr; cbn; lia|]. split; intros n H; discriminate.
+Qed.
+
+Theorem parse_all_spec input :
+  exists items p, parse_all input = Ok (items, p) /\ Forall item_ok items /\
+    parser_next p = Ok (None, p) /\
+    (exists ls tl, items = ls ++ tl /\ Forall is_line ls /\ (tl = [] \/ exists e, tl = [inr e])).
+Proof.
+  unfold parse_all. apply collect_spec; [apply pinv_new|reflexivity|unfold measure; cbn; lia|constructor|constructor].
+Qed.
+
+Theorem parse_all_total input : exists items p, parse_all input = Ok (items, p).
+Proof. destruct (parse_all_spec input) as (items & p & H & _). eauto. Qed.
+
+Lemma next_error_sets_flag p e p' : parser_next p = Ok (Some (inr e), p') -> ps_error p' = true.
+Proof.
+  unfold parser_next. destruct (ps_error p); [discriminate|].
+  destruct (lines_loop _ _ _) as [[[ol c] r]|[ps k|]|]; try discriminate.
+  - destruct ol; discriminate.
+  - intros [= _ <-]. reflexivity.
+Qed.
+
+(* n further calls of next *)
+Fixpoint next_n (n : nat) (p : parser) : list (res zerr (option item * parser)) :=
+  match n with
+  | O => []
+  | S n' => parser_next p :: match parser_next p with Ok (_, p') => next_n n' p' | _ => [] end
+  end.
+
+Theorem stops_after_error p e p' : parser_next p = Ok (Some (inr e), p') ->
+  forall n, Forall (fun x => x = Ok (None, p')) (next_n n p').
+Proof.
+  intros H. apply next_error_sets_flag in H. induction n as [|n IH]; [constructor|].
+  cbn [next_n]. rewrite (next_after_error p' H). constructor; [reflexivity|exact IH].
+Qed.
+
+Theorem errors_only_last input items p : parse_all input = Ok (items, p) ->
+  parser_next p = Ok (None, p) /\
+  forall i e, nth_error items i = Some (inr e) -> S i = length items.
+Proof.
+  intros H. destruct (parse_all_spec input) as (items' & p' & H' & _ & Hn & ls & tl & -> & Hl & Ht).
+  rewrite H in H'. inversion H'; subst. split; [exact Hn|].
+  intros i e Hi. destruct (Nat.lt_ge_cases i (length ls)) as [Hlt|Hge].
+  - rewrite nth_error_app1 in Hi by exact Hlt. rewrite Forall_forall in Hl.
+    apply nth_error_In in Hi. apply Hl in Hi. contradiction.
+  - rewrite nth_error_app2 in Hi by exact Hge. destruct Ht as [->|[e' ->]].
+    + destruct (i - length ls); discriminate.
+    + rewrite app_length. simpl. destruct (i - length ls) as [|k] eqn:Ek; [lia|]. destruct k; discriminate.
+Qed.
+
+Lemma type_allowed_forbidden t : type_allowed t -> ~ In t forbidden_types.
+Proof.
+  intros (A & B & C) Hin. unfold forbidden_types in Hin.
+  change TYPE_NULL with 10%N in A. change TYPE_OPT with 41%N in B. change TYPE_TSIG with 250%N in C.
+  simpl in Hin. intuition congruence.
+Qed.
+
+Theorem records_valid input items p n rr : parse_all input = Ok (items, p) ->
+  In (inl (mkLine n (CRecord rr))) items ->
+  good_name (rr_owner rr) /\ ~ In (rr_type rr) forbidden_types /\
+  rdata_validate (rr_class rr) (rr_type rr) (rr_rdata rr) = Ok true.
+Proof.
+  intros H Hin. destruct (parse_all_spec input) as (items' & p' & H' & Hok & _).
+  rewrite H in H'. inversion H'; subst. rewrite Forall_forall in Hok. specialize (Hok _ Hin).
+  cbn in Hok. unfold line_ok in Hok. cbn in Hok. destruct Hok as (A & B & C).
+  split; [exact A|]. split; [apply type_allowed_forbidden; exact B|exact C].
+Qed.
+
+Theorem includes_valid input items p n path o : parse_all input = Ok (items, p) ->
+  In (inl (mkLine n (CInclude path (Some o)))) items -> good_name o.
+Proof.
+  intros H Hin. destruct (parse_all_spec input) as (items' & p' & H' & Hok & _).
+  rewrite H in H'. inversion H'; subst. rewrite Forall_forall in Hok. specialize (Hok _ Hin).
+  cbn in Hok. unfold line_ok in Hok. cbn in Hok. apply Hok. reflexivity.
+Qed.
+
+(* a good name passes the (C14) model of Name::validate_uncompressed_all and ends in the root label *)
+Theorem good_name_absolute nm : good_name nm ->
+  validate_uncompressed_name (n_wire nm) true = Ok (length (n_wire nm)) /\
+  last (n_wire nm) 1%N = 0%N /\ length (n_wire nm) <= 255.
+Proof.
+  intros (ls & H & ->). unfold name_of. cbn [n_wire]. split; [apply validate_wire_all; exact H|].
+  split; [unfold wire_of; apply last_last|]. destruct H as [_ H]. exact H.
 Qed.
